@@ -11,15 +11,7 @@ Proof. intro rp. vm_compute. reflexivity. Qed.
 Theorem inf_retis_eq_Pspec_staircase01_sorted_6 : forall rp ks lk,
   length ks = 6%nat -> nondecr 1 ks -> (forall k, In k ks -> (k <= 6)%nat) ->
   length lk = 7%nat ->
-  let W := stair_matrix ks in
-  let locks := lk ++ [true] in
-  idle_idx locks <> [] ->
-  ~ perm (length (idle_idx locks)) (of_lists (idle_block W locks)) == 0 ->
-  exists P, inf_retis rp 1 W locks = Some P /\ is_Pspec_on_idle W locks (mget P).
+  refines_Pspec rp (stair_matrix ks) (lk ++ [true]).
 Proof.
-  intros rp ks lk Hl Hs Hk Hlk W locks Hidle Hperm.
-  apply case_ok_sound; [|exact Hidle|exact Hperm].
-  pose proof (sweep01_sorted_6 rp) as Hsw. unfold sweep01_sorted in Hsw.
-  rewrite forallb_forall in Hsw. specialize (Hsw ks (in_sorted_supports 6 ks Hl Hs Hk)).
-  rewrite forallb_forall in Hsw. exact (Hsw _ (in_all_locks 6 lk Hlk)).
+  intros rp ks lk. exact (sweep01_sorted_sound rp 6 (sweep01_sorted_6 rp) ks lk).
 Qed.
